@@ -5,5 +5,26 @@ import "github.com/openacid/slim/trie"
 // replayOther handles the events of the families other than lookup; extended as
 // families are added.
 func replayOther(t *Tracer, rs *replayState, name string, e map[string]interface{}, c **TrieCase, st **trie.SlimTrie) bool {
+	gi := func(k string) int { return int(e[k].(float64)) }
+	switch name {
+	case "scan":
+		if *st != nil {
+			t.Emit(runScan(*st, scanReqFromEv(e)))
+		}
+		return true
+	case "iternew":
+		if *st != nil {
+			if rs.iters == nil {
+				rs.iters = &iterSet{its: map[int]trie.NextRaw{}}
+			}
+			t.Emit(iterNewEv(*st, rs.iters, gi("id"), fromInts(toIntSlice(e["start"])), gi("incl") == 1, gi("withvalue") == 1))
+		}
+		return true
+	case "iternext":
+		if *st != nil && rs.iters != nil {
+			t.Emit(iterNextEv(rs.iters, gi("id")))
+		}
+		return true
+	}
 	return false
 }
